@@ -442,6 +442,20 @@ func c16Results(t *testing.T, ds []*indexData, proj bool) map[string][]string {
 	}
 	sort.Strings(rows)
 	out["LIST"] = rows
+	// file categories (generated / vendored / test / binary ...: they feed the ranking, no query selects on them): per
+	// document of a live repository, read with the accessor the scorer uses
+	var cats []string
+	for _, d := range ds {
+		for doc := uint32(0); int(doc) < len(d.fileBranchMasks); doc++ {
+			md := d.repoMetaData[d.repos[doc]]
+			if md.Tombstone {
+				continue
+			}
+			cats = append(cats, fmt.Sprintf("repo=%s file=%s category=%v", md.Name, d.fileName(doc), d.getCategory(doc)))
+		}
+	}
+	sort.Strings(cats)
+	out["CATEGORY"] = cats
 	return out
 }
 
